@@ -612,3 +612,13 @@ Proof.
   intros H. unfold accepted. rewrite queued_one. destruct (Nat.eqb_spec (handles s) 0); [lia|reflexivity].
 Qed.
 End Corollaries.
+
+(* a reply result (success, exception, bad reply) only ever comes from the frame that carries the
+   outstanding transaction id, and goes to the outstanding request *)
+Lemma no_crosstalk cfg s e id res : In (OComplete id res) (snd (step cfg s e)) ->
+  res = ROk \/ res = RErr ReException \/ res = RErr ReBadResponse ->
+  exists r tx d k, ph s = PInFlight r tx d /\ rq_id r = id /\ res = respond k /\
+    ((e = EvFrame tx k /\ partial s = None) \/ (e = EvTail /\ partial s = Some (tx, k))).
+Proof.
+  intros H Hr. apply step_class in H. destruct Hr as [-> | [-> | ->]]; exact H.
+Qed.
